@@ -86,7 +86,7 @@ class C02(Sim):
         if rng.random() < (0.004 if tier == "quick" else 0.01):
             yield self._huge_case(rng)
             return
-        sp = S.gen_spec(rng, activations=["General"], fn_reads_output=False)
+        sp = S.gen_spec(rng, activations=["General"], fn_reads_output=False, norm_functions=True)
         r0 = rng.random()
         if r0 < 0.06:
             S.make_hybrid_output(rng, sp)
@@ -186,6 +186,8 @@ class C02(Sim):
             out.log = log
             return out
         n_in = len(A.input_variables)
+        for _cls in S.classes_of(sp):
+            st.hit("classes." + _cls)
         fams = {o["family"] for o in sp["outputs"]}
         if len(fams) > 1:
             st.hit("probes.hybrid_engine")
